@@ -112,7 +112,10 @@ def _helper_read_frame(lit: LineIterator) -> tuple:
         width = line.index(".", dot + 1) - dot
         for j in range(3):
             pos[i, j] = float(line[20 + j * width : 20 + (j + 1) * width])
-            vel[i, j] = float(line[20 + (j + 3) * width : 20 + (j + 4) * width])
+        # The velocity columns are optional in the GRO format: without them, velocities stay zero.
+        if line[20 + 3 * width :].strip() != "":
+            for j in range(3):
+                vel[i, j] = float(line[20 + (j + 3) * width : 20 + (j + 4) * width])
     pos *= nanometer  # atom coordinates are in nanometers
     vel *= nanometer / picosecond
     # Read the cell line
